@@ -404,3 +404,136 @@ def run_patterns(rep, spec, tier='quick', verbose=False, only=None, which=('grid
 
 def props_repo():
     return os.environ.get('VERIF_REPO', '/repo')
+
+
+# ---------------------------------------------------------------------------------------------------------------------
+# C08: run-time checks emitted for indexing, slicing and make.  Each case: a Go function, the J0 kinds of its parameters,
+# the Go-specification panic condition and the expected result.
+class SpecCase:
+    def __init__(self, name, gosrc, params, panic, msg, result=None, mode='jn'):
+        self.name, self.gosrc, self.params, self.panic, self.msg, self.result, self.mode = name, gosrc, params, panic, msg, result, mode
+
+def elem(ex, st, s, i):
+    return z3.Select(z3.Select(ex.heap(st), s.fields['$array'].ident), s.fields['$offset'] + i)
+
+def c08_cases():
+    C = []
+    oob = lambda i, n: z3.Or(i < 0, i >= n)
+    C.append(SpecCase('IdxS', 'func IdxS(s []int32, i int) int32 { return s[i] }', [('s', 'slice'), ('i', 'int32')],
+                      lambda ex, st, P: oob(P['i'], P['s'].fields['$length']), 'index out of range',
+                      lambda ex, st0, st, P, r: [('value', r == elem(ex, st0, P['s'], P['i']))]))
+    C.append(SpecCase('IdxSC', 'func IdxSC(s []int32) int32 { return s[3] }', [('s', 'slice')],
+                      lambda ex, st, P: 3 >= P['s'].fields['$length'], 'index out of range',
+                      lambda ex, st0, st, P, r: [('value', r == elem(ex, st0, P['s'], 3))]))
+    C.append(SpecCase('SetS', 'func SetS(s []int32, i int, v int32) { s[i] = v }', [('s', 'slice'), ('i', 'int32'), ('v', 'int32')],
+                      lambda ex, st, P: oob(P['i'], P['s'].fields['$length']), 'index out of range',
+                      lambda ex, st0, st, P, r: [('stored', elem(ex, st, P['s'], P['i']) == P['v']),
+                                                 ('frame', z3.ForAll([K_], z3.Implies(K_ != P['s'].fields['$offset'] + P['i'],
+                                                   z3.Select(z3.Select(ex.heap(st), P['s'].fields['$array'].ident), K_) == z3.Select(z3.Select(ex.heap(st0), P['s'].fields['$array'].ident), K_))))]))
+    C.append(SpecCase('IdxStr', 'func IdxStr(s string, i int) byte { return s[i] }', [('s', 'str'), ('i', 'int32')],
+                      lambda ex, st, P: oob(P['i'], P['s'].len), 'index out of range',
+                      lambda ex, st0, st, P, r: [('value', r == z3.Select(P['s'].arr, P['s'].off + P['i']))]))
+    C.append(SpecCase('IdxStrC', 'func IdxStrC(s string) byte { return s[2] }', [('s', 'str')],
+                      lambda ex, st, P: 2 >= P['s'].len, 'index out of range',
+                      lambda ex, st0, st, P, r: [('value', r == z3.Select(P['s'].arr, P['s'].off + 2))]))
+    def sl_res(lo, hi, mx):
+        def f(ex, st0, st, P, r):
+            s = P['s']
+            a = P[lo] if lo else 0
+            h = P[hi] if hi else s.fields['$length']
+            m = P[mx] if mx else s.fields['$capacity']
+            return [('nil stays nil', z3.Implies(s.fields['$nil'], r.fields['$nil'])),
+                    ('view', z3.Implies(z3.Not(s.fields['$nil']), z3.And(r.fields['$array'].ident == s.fields['$array'].ident, r.fields['$offset'] == s.fields['$offset'] + a,
+                                                                        r.fields['$length'] == h - a, r.fields['$capacity'] == m - a)))]
+        return f
+    def sl_panic(lo, hi, mx):
+        def f(ex, st, P):
+            s = P['s']
+            a = P[lo] if lo else 0
+            h = P[hi] if hi else s.fields['$length']
+            m = P[mx] if mx else s.fields['$capacity']
+            return z3.Not(z3.And(0 <= a, a <= h, h <= m, m <= s.fields['$capacity']))
+        return f
+    C.append(SpecCase('Sl2', 'func Sl2(s []int32, a, b int) []int32 { return s[a:b] }', [('s', 'slice'), ('a', 'int32'), ('b', 'int32')], sl_panic('a', 'b', None), 'slice bounds out of range', sl_res('a', 'b', None)))
+    C.append(SpecCase('Sl3', 'func Sl3(s []int32, a, b, c int) []int32 { return s[a:b:c] }', [('s', 'slice'), ('a', 'int32'), ('b', 'int32'), ('c', 'int32')], sl_panic('a', 'b', 'c'), 'slice bounds out of range', sl_res('a', 'b', 'c')))
+    C.append(SpecCase('SlLo', 'func SlLo(s []int32, a int) []int32 { return s[a:] }', [('s', 'slice'), ('a', 'int32')], sl_panic('a', None, None), 'slice bounds out of range', sl_res('a', None, None)))
+    C.append(SpecCase('SlHi', 'func SlHi(s []int32, b int) []int32 { return s[:b] }', [('s', 'slice'), ('b', 'int32')], sl_panic(None, 'b', None), 'slice bounds out of range', sl_res(None, 'b', None)))
+    C.append(SpecCase('SlStr', 'func SlStr(s string, a, b int) string { return s[a:b] }', [('s', 'str'), ('a', 'int32'), ('b', 'int32')],
+                      lambda ex, st, P: z3.Not(z3.And(0 <= P['a'], P['a'] <= P['b'], P['b'] <= P['s'].len)), 'slice bounds out of range',
+                      lambda ex, st0, st, P, r: [('length', r.len == P['b'] - P['a'])]))
+    C.append(SpecCase('Mk', 'func Mk(n int) []byte { return make([]byte, n) }', [('n', 'int32')],
+                      lambda ex, st, P: P['n'] < 0, None,
+                      lambda ex, st0, st, P, r: [('len/cap', z3.And(r.fields['$length'] == P['n'], r.fields['$capacity'] == P['n'], z3.Not(r.fields['$nil'])))]))
+    C.append(SpecCase('Mk2', 'func Mk2(n, m int) []int32 { return make([]int32, n, m) }', [('n', 'int32'), ('m', 'int32')],
+                      lambda ex, st, P: z3.Or(P['n'] < 0, P['m'] < P['n']), None,
+                      lambda ex, st0, st, P, r: [('len/cap', z3.And(r.fields['$length'] == P['n'], r.fields['$capacity'] == P['m'], z3.Not(r.fields['$nil'])))]))
+    return C
+
+K_ = z3.Int('k!frame')
+
+def run_c08(rep, spec, verbose=False, only=None):
+    cases = c08_cases()
+    if only: cases = [c for c in cases if only in c.name]
+    gosrc = 'package main\n\nfunc main() {}\n\n' + '\n'.join(c.gosrc for c in cases) + '\n'
+    with tempfile.TemporaryDirectory(prefix='gvc-pat-') as td:
+        keep = os.path.join(td, 'pkg.js')
+        out, err = e2e.run(gosrc, 'console.log("compiled")', keep=keep)
+        if out is None or not os.path.exists(keep):
+            rep.undecided.append(('C08 pattern cases', 'the real compiler did not produce output: %s' % (err or '')[-400:]))
+            return []
+        files = [os.path.join(props_repo(), 'compiler', 'prelude', f) for f in ('prelude.js', 'numeric.js', 'types.js', 'goroutines.js', 'jsmapping.js')] + [keep]
+        dump = run_jsdump(files)
+    emitted = find_emitted(dump['pkg.js']['program'], {c.name for c in cases})
+    ex = PatternExec(dump, spec)
+    ex.load_axioms()
+    for c in cases:
+        fn = emitted.get(c.name)
+        if fn is None:
+            rep.undecided.append(('pattern ' + c.name, 'function not found in the emitted package')); continue
+        before = len(ex.obls)
+        try:
+            ex.verify_spec_case(c, fn)
+            rep.functions.append('emitted ' + c.name)
+        except (Unsupported, KeyError, RecursionError, AttributeError) as e:
+            del ex.obls[before:]
+            rep.undecided.append(('pattern ' + c.name, '%s: %s' % (type(e).__name__, e)))
+    rep.assumed |= ex.assumed
+    rep.extra['helper_contracts_used'] = sorted(getattr(ex, 'used_contracts', set()))
+    return ex.obls
+
+def _verify_spec_case(self, case, fn):
+    reset_fresh()
+    self.known_ranges = {}; self.u32view = {}; self.dmcache = {}
+    self.mode = case.mode
+    fr = Frame('pattern ' + case.name, fn, None)
+    fr.loops = {}; fr.loop_specs = {}
+    self.frame = fr
+    self.loop_cache = {}
+    st = State()
+    P = {}
+    for (pn, pt) in case.params:
+        P[pn] = st.env[pn] = self.make_param(st, pn, pt)
+    self.heap(st)
+    entry = st.clone(); st.entry = entry; entry.entry = entry
+    pc = case.panic(self, st, P)
+    body = fn['body']
+    def run(state):
+        self.block(state, body['body'])
+        return None
+    n = 0
+    for (how, state, info) in self.run_paths(st, run):
+        self.trace = ['exit', n]; n += 1
+        if how in ('return', 'end'):
+            self.oblige(state, 'no-panic-expected', z3.Not(pc))
+            r = info[0] if (how == 'return' and info) else None
+            if isinstance(r, MaybeNaN):
+                self.oblige(state, 'result-not-NaN', z3.Not(r.nan)); r = r.val
+            if case.result is not None:
+                for (nm, g) in case.result(self, entry, state, P, r):
+                    self.oblige(state, nm, g)
+        elif how == 'panic':
+            self.oblige(state, 'panic-only-if-spec-panics(%s)' % info, pc)
+            if case.msg:
+                self.oblige(state, 'panic-message', z3.BoolVal(str(info) == case.msg))
+    self.trace = []
+PatternExec.verify_spec_case = _verify_spec_case
